@@ -1122,3 +1122,31 @@ VARIANTS['C16'] += [
     V('neutral: https test first, BaseURL option second',
       [(MCTX, "        if opts.useBaseUrls and is_https_request():\n", "        if is_https_request() and opts.useBaseUrls:\n")], None),
 ]
+
+REPF2 = 'dashlive/mpeg/dash/representation.py'
+VARIANTS['C06'] += [
+    V('neutral: earlier fragments named before their durations are summed',
+      [(MRQ, "            base_media_decode_time = sum([\n                seg.duration for seg in representation.segments[1:mod_segment]])",
+        "            earlier = representation.segments[1:mod_segment]\n            base_media_decode_time = sum(seg.duration for seg in earlier)")], None),
+    V('synthesised tfdt counts the init segment as a fragment',
+      [(MRQ, "                seg.duration for seg in representation.segments[1:mod_segment]])", "                seg.duration for seg in representation.segments[0:mod_segment]])")],
+      'R06.10', 'generate_media_segment'),
+    V('neutral: listed duration under another name',
+      [(REPF2, "            elif duration != s_node.duration:\n", "            elif s_node.duration != duration:\n")], None),
+]
+VARIANTS['C13'] += [
+    V('neutral: body cut to the range unless no range was given',
+      [(MRQ, "            if start is not None:\n                data = data[start:end + 1]\n", "            if start is None:\n                pass\n            else:\n                data = data[start:end + 1]\n")], None),
+]
+VARIANTS['C14'] += [
+    V('neutral: presence of the splice time in a local',
+      [('dashlive/scte35/splice_time.py', "        if self.pts is None:\n            w.write(1, 'time_specified_flag', value=0)\n        else:\n            w.write(1, 'time_specified_flag', value=1)\n",
+        "        has_pts = self.pts is not None\n        if not has_pts:\n            w.write(1, 'time_specified_flag', value=0)\n        else:\n            w.write(1, 'time_specified_flag', value=1)\n")], None),
+    V('splice time present when the pts is true',
+      [('dashlive/scte35/splice_time.py', "        if self.pts is None:\n            w.write(1, 'time_specified_flag', value=0)\n        else:\n", "        if not self.pts:\n            w.write(1, 'time_specified_flag', value=0)\n        else:\n")],
+      'R14.10', 'SpliceTime.encode'),
+]
+VARIANTS['C19'] += [
+    V('neutral: days, seconds and microseconds of a delta read into locals',
+      [('dashlive/utils/date_time.py', "    result += timescale * delta.seconds\n", "    secs_of_day = delta.seconds\n    result += timescale * secs_of_day\n")], None),
+]
